@@ -208,7 +208,9 @@ def fold_unknown_async(facts_json, known):
                         cp = ty.get('p')
                     elif ty is not None and ty.get('k') == 'opaque' and ty.get('fn'):
                         cp = ty['fn'] + '::{closure#0}'
-                    if cp in helpers and cp != p and len(b['blocks']) + len(bodies[cp]['blocks']) <= 4 * MAX_BLOCKS:
+                    if cp in helpers and cp != p and len(b['blocks']) + len(bodies[cp]['blocks']) <= 4 * MAX_BLOCKS \
+                            and not ({(g.get('i'), g['n']) for g in bodies[cp].get('generics', []) if g.get('k') == 'type'}
+                                     - {(g.get('i'), g['n']) for g in b.get('generics', []) if g.get('k') == 'type'}):
                         fl = _future_local(b, t['args'][0])
                         if fl is not None:
                             fold_async_at(b, bi, bodies[cp], fl, t['a'][0])
@@ -220,6 +222,31 @@ def fold_unknown_async(facts_json, known):
     return done
 
 
+def still_called(facts_json, helper_paths):
+    """helpers (fn paths) that are still called / awaited somewhere after folding"""
+    types = facts_json['types']
+    out = set()
+    for b in facts_json['bodies']:
+        if '::tests::' in b['path']:
+            continue
+        for bl in b['blocks']:
+            t = bl['term']
+            if t['k'] != 'call':
+                continue
+            fn = t.get('fn')
+            if fn in helper_paths and not b['path'].startswith(fn):
+                # the creation call of an async helper stays after folding: only sync helpers count here
+                if not any(x['coroutine'] and x.get('parent') == fn for x in facts_json['bodies']):
+                    out.add(fn)
+            if fn in ('futures::Future::poll', 'std::future::Future::poll', 'core::future::Future::poll') and t.get('a'):
+                ty = types[t['a'][0]] if 0 <= t['a'][0] < len(types) else None
+                if ty is not None and ty.get('k') == 'opaque' and ty.get('fn') in helper_paths:
+                    out.add(ty['fn'])
+                if ty is not None and ty.get('k') == 'coroutine' and (ty.get('p') or '').rsplit('::{closure', 1)[0] in helper_paths:
+                    out.add(ty['p'].rsplit('::{closure', 1)[0])
+    return out
+
+
 def fold_unknown_helpers(facts_json, known):
     """-> list of (caller path, helper path) that were folded"""
     if known is None:
@@ -228,6 +255,12 @@ def fold_unknown_helpers(facts_json, known):
     helpers = {p for p, b in bodies.items()
                if p not in known and not b['coroutine'] and not b.get('async') and b['kind'] in ('Fn', 'AssocFn')
                and '::tests::' not in p and '{closure' not in p and len(b['blocks']) <= MAX_BLOCKS}
+    # helpers with type parameters of their own are left as calls (their locals are typed by parameters the caller's
+    # generic context does not bind; the interprocedural engines bind them at the call)
+    def own_tparams(hb, cb):
+        ht = {(g.get('i'), g['n']) for g in hb.get('generics', []) if g.get('k') == 'type'}
+        ct = {(g.get('i'), g['n']) for g in cb.get('generics', []) if g.get('k') == 'type'}
+        return ht - ct
     # a helper that returns a future (async fn) is not folded: its body is the constructor of the coroutine
     cor_parents = {b.get('parent') for b in facts_json['bodies'] if b['coroutine']}
     helpers = {p for p in helpers if p not in cor_parents}
@@ -245,7 +278,9 @@ def fold_unknown_helpers(facts_json, known):
                 if t['k'] == 'call' and t.get('fn') in helpers and t.get('fn') != p and t.get('local', True) \
                         and not t['dst']['p'] is None and len(b['blocks']) + len(bodies[t['fn']]['blocks']) <= 4 * MAX_BLOCKS:
                     callee = bodies[t['fn']]
-                    # generic helpers are folded too: type ids are global, type parameters stay symbolic
+                    if own_tparams(callee, b):
+                        bi += 1
+                        continue
                     inline_into(b, bi, callee)
                     done.append((p, t['fn']))
                     changed = True
